@@ -1,8 +1,11 @@
 #!/bin/sh
 # tools/seeded.sh <property-check-to-run> <patch.diff> [budget-s]
-# Applies a seeded change to /repo, runs the check, always reverts.
+# Runs a check against a seeded change applied to a scratch copy of /repo (VERIF_REPO);
+# /repo itself is not touched, so background runs on /repo are not disturbed.
 id=$1; patch=$2; budget=${3:-20}
-trap 'git -C /repo checkout -- . >/dev/null 2>&1' EXIT INT TERM
-git -C /repo apply "$patch" || { echo "PATCH DOES NOT APPLY"; exit 3; }
-cd /verif && ./check "$id" --budget-s "$budget" ${WORKERS:+--workers $WORKERS} ${TIER:+--tier $TIER} | grep '^violation class=\|^VIOLATION\|^summary\|^KNOWN\|^INCONCLUSIVE' | cut -c1-300 | sed 's/replay=.*//' | sort | uniq -c | sort -rn | head -8
+scratch=$(mktemp -d /dev/shm/verif-seeded-XXXXXX) || exit 2
+trap 'rm -rf "$scratch"' EXIT INT TERM
+mkdir -p "$scratch/repo" && git -C /repo archive HEAD | tar -x -C "$scratch/repo"
+(cd "$scratch/repo" && patch -p1 -s < "$patch" >/dev/null 2>&1) || { echo "PATCH DOES NOT APPLY"; exit 3; }
+cd /verif && VERIF_REPO="$scratch/repo" ./check "$id" --budget-s "$budget" ${WORKERS:+--workers $WORKERS} ${TIER:+--tier $TIER} | grep '^violation class=\|^VIOLATION\|^summary\|^KNOWN\|^INCONCLUSIVE' | cut -c1-300 | sed 's/replay=.*//' | sort | uniq -c | sort -rn | head -8
 git -C /verif checkout -- evidence/ 2>/dev/null
